@@ -87,7 +87,7 @@ pub fn e1_jobs(prop: &str, tier: Tier) -> (Vec<E1Job>, usize) {
         "C13" => if q { vec![pf(5), pe(1, true, 2), pe(2, true, 1), paj(3), E1Job { profile: Profile::S, depth: 3, alt_map: false }] } else { vec![pf(5), pe(2, true, 2), E1Job { profile: Profile::S, depth: 3, alt_map: false }] },
         "C04x" => vec![],
         "C18" => if q { vec![pill(4), pc(7), pbs(3), pbj(4), pn(3), paj(4), pc3(9)] } else { vec![pill(5), pc(8), pc3(10), paj(5), pb(4), pbj(5), pn(4), pe(1, true, 2)] },
-        "C19" => if q { vec![pa15(3), pb(3), pd(5), pe(1, true, 2), pc(5), paj(4)] } else { vec![pa(3), pb(3), pbs(4), pd(5), pe(1, true, 2), pc(6), pf(4), paj(5), paj5(4)] },
+        "C19" => if q { vec![pa15(3), pb(3), pd(5), pe(1, true, 2), pc(5), paj(4), pill(5)] } else { vec![pa(3), pb(3), pbs(4), pd(5), pe(1, true, 2), pc(6), pf(4), paj(5), paj5(4)] },
         "C20" => if q { vec![pn(5), pill(4), pb(3), pc(7), pd(5), pe(1, true, 2), paj(4), pa15(3)] } else { vec![pn(5), pb(4), pc(8), pd(6), pe(1, true, 2)] },
         _ => vec![],
     };
@@ -575,6 +575,22 @@ pub fn e2_jobs(prop: &str, tier: Tier) -> Vec<E2Job> {
             let dep_acc = acc(&[(&[], &[]), (&[], &[0]), (&[0], &[])]);
             let depplans = |d| distinct_plans(&Profile::B { access: dep_acc.clone(), times: vec![3], unnamed: false, dup: false, pairs: false }, d, 1);
             jobs.push(E2Job { label: "dependency/access plans x every single panicking system x {fetch, run}, then a clean dispatch".into(), scenarios: panic_scen(&depplans(if q { 2 } else { 3 }), &[Mode::Dispatch, Mode::Seq], false), bounds: b(2), delay: false });
+            {
+                // controllers that dispatch their inner plan 2 or 3 times (hand-written and the library's
+                // MultiDispatcher): the panic hits the first inner dispatch, the planned rest is abandoned for good
+                let sy = |n: &str, r: &[u8], w: &[u8], deps: &[&str]| Op::Sys(crate::spec::SysSpec { name: n.into(), reads: r.to_vec(), writes: w.to_vec(), time: 3, deps: deps.iter().map(|s| s.to_string()).collect() });
+                let mut plans: Vec<Vec<Op>> = Vec::new();
+                for multi in [false, true] {
+                    for times in [2u8, 3] {
+                        for inner in [vec![sy("i0", &[], &[0], &[])], vec![sy("i0", &[], &[0], &[]), sy("i1", &[], &[1], &["i0"])]] {
+                            let batch = Op::Batch(crate::spec::BatchSpec { name: "b".into(), deps: vec![], ctrl: crate::spec::CtrlData::Unit, times, multi, fetch_data: false, inner });
+                            plans.push(vec![batch.clone()]);
+                            plans.push(vec![batch, sy("after", &[], &[], &["b"])]);
+                        }
+                    }
+                }
+                jobs.push(E2Job { label: "batches whose controller dispatches the inner plan 2-3 times (hand-written / MultiDispatcher), single panicking system, then a clean dispatch".into(), scenarios: panic_scen(&plans, &[Mode::Dispatch, Mode::Seq], false), bounds: b(1), delay: false });
+            }
             jobs.push(E2Job { label: "3-op plans, single panicking system".into(), scenarios: panic_scen(&depplans(3).into_iter().filter(|p| p.len() == 3).collect::<Vec<_>>(), &[Mode::Dispatch], !q), bounds: b(if q { 1 } else { 2 }), delay: false });
             {
                 // plans in which the balancing rule really forms groups of 2+ systems (running-time hints 1..3),
@@ -1102,6 +1118,37 @@ pub fn run_c15(tier: Tier, budget: Duration, frag: &mut Frag) {
         frag.transitions += r.transitions;
         frag.exhaustive &= !r.capped;
         frag.col.merge(r.col);
+    }
+    // feature interactions: every zoo sequence of <= 2 registrations that has a batch and a thread-local system
+    // (top-level or inside a batch): thread-local systems of the top level run only inside wait, on the caller
+    {
+        let zoo = distinct_plans(&Profile::Z { inner_max: 1 }, 2, 1);
+        fn has_tl(ops: &[Op]) -> bool {
+            ops.iter().any(|o| matches!(o, Op::Tl(_)) || matches!(o, Op::Batch(b) if has_tl(&b.inner)))
+        }
+        let mut scs = Vec::new();
+        for p in zoo.iter().filter(|p| p.iter().any(|o| matches!(o, Op::Batch(_))) && has_tl(p)) {
+            for script in ["DW", "DRW", "DXW", "DWDW"] {
+                let mut sc = Scenario::plain(p.clone(), Mode::Async, 0);
+                sc.script = Some(script.to_string());
+                scs.push(sc);
+            }
+        }
+        let t0 = Instant::now();
+        let opts = ExploreOpts { bounds: vec![0, 1], all_points: false, deadline: t0 + budget / 5, max_execs: u64::MAX, keep_traces: 0, deadlock_prop: Some("C15"), delay_mode: true };
+        let r = run_scenarios(&scs, Mon::default(), &opts);
+        frag.parts.push(json!({"engine":"E2 schedmc","scenarios":"feature zoo: every sequence of <= 2 registrations with a batch and a thread-local system (top-level or inner); scripts DW, DRW, DXW, DWDW","n_scenarios":scs.len(),"scenarios_completed":r.completed,"bound_kind":"delay (all deviations)","bounds":[0,1],"schedules":r.executions,"states":r.nodes,"transitions":r.transitions,"deadlocks":r.deadlocks,"cap_hit":r.capped,"wall_s":t0.elapsed().as_secs_f64()}));
+        frag.states += r.nodes;
+        frag.transitions += r.transitions;
+        frag.exhaustive &= !r.capped;
+        // KF1 / KF2 (thread-local systems inside batches) are C12's / C01's business
+        let mut col = Collector::default();
+        for ((p, _), (f, _)) in r.col.best {
+            if p == "C15" || p == "MACHINERY" {
+                col.add(f);
+            }
+        }
+        frag.col.merge(col);
     }
     // plan shapes: every sequence of 2..4|5 stages, each single-group or two groups wide (code that treats runs of
     // single-group stages, or the stage behind them, differently)
